@@ -179,7 +179,7 @@ static int parse_index_w(
       }
     }
 
-    if (index < -128 || index > 127)
+    if (num < -128 || num > 127)
     {
       print_error_range(asm_context, "Constant", -128, 127);
       return -1;
